@@ -74,6 +74,10 @@ def cache_dir():
         os.makedirs(d, exist_ok=True)
         try:
             gens = [g for g in os.listdir(CACHE) if g != header_digest()]
+            # a generation used in the last two hours may belong to a concurrent run on another tree
+            # (mutant self-tests): never remove it under that run's feet
+            now = time.time()
+            gens = [g for g in gens if now - os.path.getmtime(os.path.join(CACHE, g)) > 7200]
             gens.sort(key=lambda g: os.path.getmtime(os.path.join(CACHE, g)))
             for g in gens[:-MAX_CACHE_GENERATIONS]:  # mutant runs flip between header versions
                 shutil.rmtree(os.path.join(CACHE, g), ignore_errors=True)
@@ -129,6 +133,15 @@ def probes_digest(src_text=None):
     return ','.join('%s=%s' % kv for kv in sorted(seen.items()))
 
 
+_TRANSIENT = ('unable to rename temporary', 'No space left on device', 'unable to open output file', 'IO failure on output stream',
+              'Cannot allocate memory', 'virtual memory exhausted', 'Disk quota exceeded', 'Input/output error')
+
+
+def _transient(rc, stderr):
+    """A tool failure that says something about the machine at that moment, not about the source."""
+    return rc < 0 or any(t in stderr for t in _TRANSIENT)
+
+
 def cached_tool(key_parts, cmd_builder, out_suffix, src_text=None, src_suffix='.cpp'):
     """Run a tool whose output file is a pure function of (header digest, key_parts).
 
@@ -155,6 +168,9 @@ def cached_tool(key_parts, cmd_builder, out_suffix, src_text=None, src_suffix='.
             except OSError:
                 os.remove(meta)
                 return cached_tool(key_parts, cmd_builder, out_suffix, src_text, src_suffix)
+        if m['rc'] != 0 and _transient(m['rc'], err):
+            os.remove(meta)       # an environment failure (disk, a cache directory removed meanwhile) is no fact about the source
+            return cached_tool(key_parts, cmd_builder, out_suffix, src_text, src_suffix)
         return out, m['rc'], err
     src = None
     if src_text is not None:
@@ -168,6 +184,8 @@ def cached_tool(key_parts, cmd_builder, out_suffix, src_text=None, src_suffix='.
     elif rc == 0:
         with open(out, 'w') as f:
             f.write(so)
+    if rc != 0 and _transient(rc, se):
+        return out, rc, se        # reported to the caller (analysis-broken), never remembered
     errname = key + '.stderr'
     with open(os.path.join(d, errname + '.tmp%d' % os.getpid()), 'w', errors='replace') as f:
         f.write(se)
